@@ -133,6 +133,7 @@ func cmdCheck(args []string) int {
 	if *tier == "thorough" {
 		tierN = 1
 	}
+	env.tierN = tierN
 	hmap := map[string]*Harness{}
 	var insts []*InstanceResult
 	for _, h := range hs {
@@ -356,6 +357,7 @@ func cmdCheck(args []string) int {
 				ev.knownHit = append(ev.knownHit, v.Harness+" "+v.Signature)
 				continue
 			}
+			v.Tier = tierN
 			path := writeReplay(prop, v)
 			v.Replay = path
 			fmt.Printf("VIOLATION property=%s replay=%s\n", prop, path)
@@ -554,7 +556,7 @@ func runNative(env *Env, cases []nativeCase, hs []*Harness) ([]nativeResult, err
 	bin := filepath.Join(tmp, "verifh.test")
 	traceDir := filepath.Join(tmp, "sqltrace")
 	os.MkdirAll(traceDir, 0o755)
-	goenv := append(os.Environ(), "GOFLAGS=-mod=mod", "GOPROXY=off", "GOSUMDB=off", "GOTOOLCHAIN=local", "VERIF_BATCH="+batch, "VERIF_SQLTRACE_DIR="+traceDir)
+	goenv := append(os.Environ(), "GOFLAGS=-mod=mod", "GOPROXY=off", "GOSUMDB=off", "GOTOOLCHAIN=local", "VERIF_BATCH="+batch, "VERIF_SQLTRACE_DIR="+traceDir, fmt.Sprintf("VERIF_TIERN=%d", env.tierN))
 	build := exec.Command("go", "test", "-c", "-vet=off", "-o", bin, "-overlay", ovFile, harnessPkg)
 	build.Dir = repoDir
 	build.Env = goenv
@@ -635,6 +637,7 @@ func cmdReplay(args []string) int {
 		return 2
 	}
 	env.overlayFiles = files
+	env.tierN = v.Tier
 	rc := nativeCase{Harness: v.Harness, Shape: v.Shape, Assign: v.Assign}
 	if v.Threaded {
 		rc.Repeat = 400
